@@ -1,25 +1,12 @@
 import JaqalModel.Model.PyEq
-import Batteries.Data.List.Perm
-/-! Lemmas about the model of Python `==` (`Jaqal.PyEq`). -/
+/-! Lemmas about the model of Python `==` (`Jaqal.PyEq`): reflexivity, inversion of `dictEq`. -/
 namespace Jaqal.PyEq
 open Jaqal
 
-/-! ## `andM` -/
-
-@[simp] theorem andM_ok_true (b : M Bool) : andM (.ok true) b = b := rfl
-@[simp] theorem andM_ok_false (b : M Bool) : andM (.ok false) b = .ok false := rfl
-@[simp] theorem andM_pure_true (b : M Bool) : andM (pure true) b = b := rfl
-@[simp] theorem andM_pure_false (b : M Bool) : andM (pure false) b = .ok false := rfl
-@[simp] theorem andM_error (e : Err) (b : M Bool) : andM (.error e) b = .error e := rfl
-
-theorem andM_eq_true {a b : M Bool} : andM a b = .ok true ↔ a = .ok true ∧ b = .ok true := by
-  cases a with
-  | error e => simp
-  | ok x => cases x <;> simp
-
 /-! ## Well-formed (constructible) values: the source of a `NamedQubit` has a `.name` -/
 
-/-- every `NamedQubit` below has a source with a `.name` (the constructor reads `alias_from.size`) -/
+/-- every `NamedQubit` below has a source with a `.name` (the constructor reads `alias_from.size`, and
+`NamedQubit.__eq__` reads `alias_from.name`: without it `q == q` is `False`) -/
 def wfVal : Val → Bool
   | .const _ v => wfVal v
   | .qubit _ src idx => src.name?.isSome && wfVal src && wfVal idx
@@ -31,14 +18,14 @@ def wfVal : Val → Bool
 theorem veq_refl (x : Num) : Num.veq x x = true := by
   cases x <;> simp [Num.veq]
 
-theorem valEq_refl : ∀ v : Val, wfVal v = true → valEq v v = .ok true := by
+theorem valEq_refl : ∀ v : Val, wfVal v = true → valEq v v = true := by
   intro v
   induction v with
-  | int x => intro _; simp [valEq, Num.veq, pure, Except.pure]
-  | flt d => intro _; simp [valEq, Num.veq, pure, Except.pure]
-  | none => intro _; simp [valEq, pure, Except.pure]
-  | str s => intro _; simp [valEq, pure, Except.pure]
-  | param n k => intro _; simp [valEq, pure, Except.pure]
+  | int x => intro _; simp [valEq, Num.veq]
+  | flt d => intro _; simp [valEq, Num.veq]
+  | none => intro _; simp [valEq]
+  | str s => intro _; simp [valEq]
+  | param n k => intro _; simp [valEq]
   | const n v ih => intro h; simp only [wfVal] at h; simp [valEq, ih h]
   | qubit n src idx _ ih2 =>
     intro h
@@ -46,9 +33,7 @@ theorem valEq_refl : ∀ v : Val, wfVal v = true → valEq v v = .ok true := by
     obtain ⟨⟨h1, _⟩, h3⟩ := h
     obtain ⟨s, hs⟩ := Option.isSome_iff_exists.mp h1
     simp [valEq, hs, ih2 h3]
-  | regF n size ih =>
-    intro h; simp only [wfVal] at h
-    simp [valEq, Val.name?, sizeAttr, Resolve.resolveSize, pure, Except.pure, bind, Except.bind, ih h]
+  | regF n size ih => intro h; simp only [wfVal] at h; simp [valEq, ih h]
   | regA n src ih => intro h; simp only [wfVal] at h; simp [valEq, ih h]
   | regS n src a b c ih1 ih2 ih3 ih4 =>
     intro h
@@ -56,9 +41,8 @@ theorem valEq_refl : ∀ v : Val, wfVal v = true → valEq v v = .ok true := by
     obtain ⟨⟨⟨h1, h2⟩, h3⟩, h4⟩ := h
     simp [valEq, ih1 h1, ih2 h2, ih3 h3, ih4 h4]
 
-
-theorem argsEq_refl : ∀ args : List (String × Val), (args.all (fun a => wfVal a.2)) = true → argsEq args args = .ok true
-  | [], _ => by simp [argsEq, pure, Except.pure]
+theorem argsEq_refl : ∀ args : List (String × Val), (args.all (fun a => wfVal a.2)) = true → argsEq args args = true
+  | [], _ => by simp [argsEq]
   | a :: as, h => by
     simp only [List.all_cons, Bool.and_eq_true] at h
     simp [argsEq, valEq_refl a.2 h.1, argsEq_refl as h.2]
@@ -74,7 +58,7 @@ mutual
 end
 
 mutual
-  theorem stmtEq_refl : ∀ s : Stmt, wfStmt s = true → stmtEq s s = .ok true
+  theorem stmtEq_refl : ∀ s : Stmt, wfStmt s = true → stmtEq s s = true
     | .gate n gd args, h => by
       simp only [wfStmt] at h
       simp [stmtEq, argsEq_refl args h]
@@ -84,22 +68,14 @@ mutual
     | .loop c b, h => by
       simp only [wfStmt, Bool.and_eq_true] at h
       simp [stmtEq, valEq_refl c h.1, stmtEq_refl b h.2]
-  theorem stmtsEq_refl : ∀ l : List Stmt, wfStmts l = true → stmtsEq l l = .ok true
-    | [], _ => by simp [stmtsEq, pure, Except.pure]
+  theorem stmtsEq_refl : ∀ l : List Stmt, wfStmts l = true → stmtsEq l l = true
+    | [], _ => by simp [stmtsEq]
     | s :: rest, h => by
       simp only [wfStmts, Bool.and_eq_true] at h
       simp [stmtsEq, stmtEq_refl s h.1, stmtsEq_refl rest h.2]
 end
 
 /-! ## `dict.__eq__` -/
-
-theorem dictEq_go_refl {α} (key : α → Option String) (eq : α → α → M Bool) (b : List α)
-    (hfind : ∀ x ∈ b, b.find? (fun y => key y == key x) = some x) :
-    ∀ a : List α, (∀ x ∈ a, x ∈ b) → (∀ x ∈ a, eq x x = .ok true) → dictEq.go key eq b a = .ok true
-  | [], _, _ => rfl
-  | x :: xs, hsub, heq => by
-    simp only [dictEq.go, hfind x (hsub x (by simp)), heq x (by simp), andM_ok_true]
-    exact dictEq_go_refl key eq b hfind xs (fun y hy => hsub y (by simp [hy])) (fun y hy => heq y (by simp [hy]))
 
 /-- in a list with pairwise distinct keys, looking a member's key up finds that member -/
 theorem find_self_of_nodup {α} (key : α → Option String) :
@@ -112,33 +88,72 @@ theorem find_self_of_nodup {α} (key : α → Option String) :
     · have hne : key y ≠ key x := fun h => hnd.1 (h ▸ List.mem_map_of_mem hx')
       simp [hne, find_self_of_nodup key ys hnd.2 x hx']
 
-theorem dictEq_refl {α} (key : α → Option String) (eq : α → α → M Bool) (a : List α)
-    (hnd : (a.map key).Nodup) (heq : ∀ x ∈ a, eq x x = .ok true) : dictEq key eq a a = .ok true := by
-  simp only [dictEq, bne_self_eq_false, Bool.false_eq_true, ↓reduceIte]
-  exact dictEq_go_refl key eq a (find_self_of_nodup key a hnd) a (fun _ h => h) heq
+theorem key_inj_of_nodup {α} (key : α → Option String) : ∀ (b : List α), (b.map key).Nodup →
+    ∀ y ∈ b, ∀ y' ∈ b, key y = key y' → y = y'
+  | [], _, y, hy, _, _, _ => by simp at hy
+  | z :: zs, hnd, y, hy, y', hy', hk => by
+    simp only [List.map_cons, List.nodup_cons] at hnd
+    rcases List.mem_cons.mp hy with rfl | hy1 <;> rcases List.mem_cons.mp hy' with rfl | hy2
+    · rfl
+    · exact absurd (hk ▸ List.mem_map_of_mem hy2) hnd.1
+    · exact absurd (hk ▸ List.mem_map_of_mem hy1) hnd.1
+    · exact key_inj_of_nodup key zs hnd.2 y hy1 y' hy2 hk
+
+/-- `dict.__eq__` returned `True`: equally many entries, and every entry of `a` has an equal entry under the same
+key in `b` -/
+theorem dictEq_true {α} {key : α → Option String} {eq : α → α → Bool} {a b : List α}
+    (h : dictEq key eq a b = true) :
+    a.length = b.length ∧ ∀ x ∈ a, ∃ y ∈ b, key y = key x ∧ eq x y = true := by
+  simp only [dictEq, Bool.and_eq_true, beq_iff_eq, List.all_eq_true] at h
+  refine ⟨h.1, fun x hx => ?_⟩
+  have := h.2 x hx
+  cases hf : b.find? (fun y => key y == key x) with
+  | none => simp [hf] at this
+  | some y =>
+    rw [hf] at this
+    exact ⟨y, List.mem_of_find?_eq_some hf, by simpa using List.find?_some hf, this⟩
+
+/-- converse, for a dictionary `b` with distinct keys -/
+theorem dictEq_of {α} {key : α → Option String} {eq : α → α → Bool} {a b : List α} (hnd : (b.map key).Nodup)
+    (hlen : a.length = b.length) (h : ∀ x ∈ a, ∃ y ∈ b, key y = key x ∧ eq x y = true) :
+    dictEq key eq a b = true := by
+  simp only [dictEq, Bool.and_eq_true, beq_iff_eq, List.all_eq_true]
+  refine ⟨hlen, fun x hx => ?_⟩
+  obtain ⟨y, hy, hk, he⟩ := h x hx
+  have := find_self_of_nodup key b hnd y hy
+  rw [hk] at this
+  rw [this]; exact he
+
+theorem dictEq_refl {α} (key : α → Option String) (eq : α → α → Bool) (a : List α)
+    (hnd : (a.map key).Nodup) (heq : ∀ x ∈ a, eq x x = true) : dictEq key eq a a = true :=
+  dictEq_of hnd rfl (fun x hx => ⟨x, hx, rfl, heq x hx⟩)
 
 theorem listEqB_refl {α} (eq : α → α → Bool) (h : ∀ x, eq x x = true) : ∀ l : List α, listEqB eq l l = true
   | [] => rfl
   | x :: xs => by simp [listEqB, h x, listEqB_refl eq h xs]
 
-/-- A circuit as Python can hold it: the four dictionaries have distinct keys, and every value is constructible. -/
-structure WF (c : Circuit) : Prop where
+/-- The list representation of the four dictionaries of a circuit has pairwise distinct keys (a Python `dict`
+cannot be otherwise). -/
+structure DictKeys (c : Circuit) : Prop where
   constKeys : (c.constants.map Val.name?).Nodup
   regKeys : (c.registers.map Val.name?).Nodup
   macroKeys : (c.macros.map (fun m => some m.name)).Nodup
   nativeKeys : (c.natives.map (fun g => some g.name)).Nodup
+
+/-- A circuit as Python can hold it: dictionaries, and every `NamedQubit` has a source with a name. -/
+structure WF (c : Circuit) : Prop extends DictKeys c where
   consts : ∀ v ∈ c.constants, wfVal v = true
   regs : ∀ v ∈ c.registers, wfVal v = true
   macros : ∀ m ∈ c.macros, wfStmt m.body = true
   body : wfStmt c.body = true
 
-theorem circuitEq_refl (c : Circuit) (h : WF c) : circuitEq c c = .ok true := by
+theorem circuitEq_refl (c : Circuit) (h : WF c) : circuitEq c c = true := by
   unfold circuitEq
   rw [dictEq_refl _ _ _ h.constKeys (fun v hv => valEq_refl v (h.consts v hv))]
   rw [dictEq_refl _ _ _ h.macroKeys (fun m hm => by simp [macroEq, paramsEq, stmtEq_refl m.body (h.macros m hm)])]
-  rw [dictEq_refl _ _ _ h.nativeKeys (fun g _ => by simp [gateDefEq, paramsEq, pure, Except.pure])]
+  rw [dictEq_refl _ _ _ h.nativeKeys (fun g _ => by simp [gateDefEq, paramsEq])]
   rw [dictEq_refl _ _ _ h.regKeys (fun v hv => valEq_refl v (h.regs v hv))]
   rw [stmtEq_refl c.body h.body]
-  simp [listEqB_refl usepulsesEq (fun u => by simp [usepulsesEq]), pure, Except.pure]
+  simp [listEqB_refl usepulsesEq (fun u => by simp [usepulsesEq])]
 
 end Jaqal.PyEq
